@@ -102,7 +102,7 @@ func init() {
 		Assumptions: []string{"what is ill-formed is decided by the independent grammar (Redis command reference): arity, numeric syntax, pair completeness, SET option exclusivity"},
 		Setup: func(tier string, seed uint64) int {
 			c10.seed, c10.tier = seed, tier
-			c10.perSpec = map[string]int{"quick": 80, "thorough": 1500}[tier]
+			c10.perSpec = map[string]int{"quick": 80, "thorough": 6000}[tier]
 			return len(grammar.Specs)*c10.perSpec + 1
 		},
 		Run: c10run,
